@@ -1,0 +1,21 @@
+"""
+Verification hooks
+
+Inert unless the environment variable ``COBALD_VERIF`` is ``1`` *and* the
+external verification harness (package ``vp``) is importable; then every
+``point`` reports a named event of the runner machinery to that harness.
+"""
+
+import os
+
+
+def point(name, **fields):
+    """Report the event ``name`` - does nothing unless hooks are enabled"""
+    return None
+
+
+if os.environ.get("COBALD_VERIF") == "1":
+    try:
+        from vp.hooks import point  # noqa: F401,F811
+    except ImportError:
+        pass
